@@ -93,6 +93,23 @@ func entries(name string) map[string]string {
 // dangling walks every version object present in the bucket and returns node links that do not exist
 func (c *vacCase) dangling(prefixes ...string) []string { return danglingIn(c.store, prefixes...) }
 
+// danglingSince is danglingIn restricted to version objects created at or after `since`
+func danglingSince(store *fakes3.Store, since time.Time, prefixes ...string) []string {
+	var out []string
+	for _, d := range danglingIn(store, prefixes...) {
+		ver := strings.SplitN(d, " ", 2)[0]
+		b, ok := store.Get("p/s3db-rows/root/" + ver)
+		var root struct {
+			Created *time.Time `json:"cr"`
+		}
+		if ok && json.Unmarshal(b, &root) == nil && root.Created != nil && root.Created.Before(since) {
+			continue
+		}
+		out = append(out, d)
+	}
+	return out
+}
+
 func danglingIn(store *fakes3.Store, prefixes ...string) []string {
 	var bad []string
 	seen := map[string]bool{}
@@ -240,7 +257,9 @@ func (c *vacCase) run() {
 	}
 	// the vacuuming connection: an existing writer (refreshed) or a new connection opened now
 	vdb, vt := dbs[0], tabs[0]
+	stale := false
 	if nw == 2 && c.r.Chance(1, 3) {
+		stale = true
 		// writer 0 vacuums without having seen what writer 1 committed: whatever it deletes, the merged
 		// view of the table (what a connection opened afterwards sees) must stay as it is (F43)
 		c.note("vacuum from writer 0, not refreshed, while writer 1 has versions of its own")
@@ -330,6 +349,7 @@ func (c *vacCase) run() {
 	}
 	c.st.Evaluations++
 	c.st.Count(fmt.Sprintf("vacuum_mutations_%d", min(total, 20)/5*5))
+	retainedSince := cutoff
 	check := func(stage string) bool {
 		if got := sqlh.QS(vdb, fmt.Sprintf(`select k,a from "%s" order by k`, vt)); got != rowsBefore {
 			// F42 (dependency): with a node cache, a tree that returns to an earlier shape resolves the old hash
@@ -354,8 +374,11 @@ func (c *vacCase) run() {
 			c.fail(fmt.Sprintf("%s: the current version refers to deleted objects: %v", stage, d[:min(len(d), 3)]))
 			return false
 		}
-		if d := c.dangling("p/s3db-rows/root/merged/"); len(d) > 0 {
-			c.fail(fmt.Sprintf("%s: a retained version refers to deleted objects: %v", stage, d[:min(len(d), 3)]))
+		// superseded versions: those created at or after the cutoff are retained and must be complete; older
+		// ones are what vacuum removes (a stale vacuumer does not know the other writer's ones and leaves their
+		// version objects behind — they are history older than the cutoff, not retained versions)
+		if d := danglingSince(c.store, retainedSince, "p/s3db-rows/root/merged/"); len(d) > 0 {
+			c.fail(fmt.Sprintf("%s: a version created at or after the cutoff refers to deleted objects: %v", stage, d[:min(len(d), 3)]))
 			return false
 		}
 		return true
@@ -387,7 +410,7 @@ func (c *vacCase) run() {
 	if purged > 0 {
 		c.st.Count("vacuum_purged_rows")
 	}
-	if cutoff.After(time.Now()) {
+	if cutoff.After(time.Now()) && !stale {
 		// everything superseded is gone: only the current version and exactly its nodes remain
 		if m := c.store.Keys("p/s3db-rows/root/merged/"); len(m) > 0 {
 			c.fail(fmt.Sprintf("with a cutoff in the future %d superseded versions remain: %v", len(m), m[:min(len(m), 3)]))
@@ -417,7 +440,8 @@ func (c *vacCase) run() {
 	// a later vacuum with a cutoff in the future purges every marker: the tree may return to a shape it had
 	// before, i.e. to nodes an earlier vacuum deleted — they must be stored again (F40: node cache)
 	if cutoff.Before(time.Now()) {
-		if err := s3db.Vacuum(context.Background(), vt, time.Now().Add(time.Hour)); err != nil {
+		retainedSince = time.Now().Add(time.Hour)
+		if err := s3db.Vacuum(context.Background(), vt, retainedSince); err != nil {
 			c.fail("vacuum with a later cutoff fails: " + err.Error())
 			return
 		}
